@@ -18,7 +18,12 @@ func (w *verifC14World) pickPeer() int {
 }
 
 // channel operand of REGISTER/UNREGISTER: none, durable, ephemeral
-func verifC14PickOptChan() int { return verifrt.Choice("chan", verifC14NC+1) - 1 }
+func (w *verifC14World) pickOptChan() int {
+	if w.topicLevel {
+		return -1
+	}
+	return verifrt.Choice("chan", verifC14NC+1) - 1
+}
 
 // topic operand of an operation (onlyTopic >= 0: the harness aims every operation at one topic)
 func (w *verifC14World) pickTopic() int {
@@ -26,6 +31,14 @@ func (w *verifC14World) pickTopic() int {
 		return w.onlyTopic
 	}
 	return verifrt.Choice("topic", verifC14NT)
+}
+
+// the kind of the next operation (w.kinds restricts a harness to a subset)
+func (w *verifC14World) pickKind() int {
+	if w.kinds != nil {
+		return w.kinds[verifrt.Choice("op", len(w.kinds))]
+	}
+	return verifrt.Choice("op", verifC14Kinds)
 }
 
 func (w *verifC14World) step(kind int) {
@@ -40,10 +53,10 @@ func (w *verifC14World) step(kind int) {
 		}
 	case 1:
 		p := w.pickPeer()
-		w.register(p, w.pickTopic(), verifC14PickOptChan())
+		w.register(p, w.pickTopic(), w.pickOptChan())
 	case 2:
 		p := w.pickPeer()
-		w.unregister(p, w.pickTopic(), verifC14PickOptChan())
+		w.unregister(p, w.pickTopic(), w.pickOptChan())
 	case 3:
 		w.ping(w.pickPeer())
 	case 4:
